@@ -55,7 +55,111 @@ class Terms:
         self._busy = set()
 
     # ------------------------------------------------------------------ definitions
+    def _transparent_borrow_locals(self):
+        """Reference locals r (defined once, by `r = &mut L`) that never leave our sight: r and its copies/reborrows are
+        only dereferenced - never passed to a call, stored in a value or returned - and no store through them writes L's
+        own storage (every such store goes through a *second* pointer found in L).  After inlining this is the shape of
+        `view.helper(..)` where `view` is a local struct of references: the borrow then does not change L."""
+        body = self.body
+        ndefs = {}
+        uses = {}       # local -> set of kinds
+
+        def mark(l, kind):
+            uses.setdefault(l, set()).add(kind)
+
+        def op_use(o, ctx):
+            if not isinstance(o, dict) or o.get('k') not in ('copy', 'move'):
+                return
+            pl = o['place']
+            if not pl['p']:
+                mark(pl['l'], ctx)
+            elif pl['p'][0][0] == 'deref':
+                mark(pl['l'], 'deref')
+            else:
+                mark(pl['l'], 'other')
+            for e in pl['p']:
+                if e[0] == 'index':
+                    mark(e[1], 'other')
+        alias = {}
+        for bi, b in enumerate(body.blocks):
+            for si, s in enumerate(b['stmts']):
+                if s['k'] == 'setdiscr':
+                    mark(s['place']['l'], 'other')
+                    continue
+                if s['k'] != 'assign':
+                    continue
+                pl, rv = s['place'], s['rv']
+                if not pl['p']:
+                    ndefs[pl['l']] = ndefs.get(pl['l'], 0) + 1
+                elif pl['p'][0][0] == 'deref':
+                    mark(pl['l'], 'deref' if any(e[0] == 'deref' for e in pl['p'][1:]) else 'write-own')
+                else:
+                    mark(pl['l'], 'other')
+                k = rv['k']
+                if k == 'use':
+                    o = rv['op']
+                    if isinstance(o, dict) and o.get('k') in ('copy', 'move') and not o['place']['p'] and not pl['p']:
+                        alias.setdefault(o['place']['l'], set()).add(pl['l'])
+                        mark(o['place']['l'], 'alias')
+                    else:
+                        op_use(o, 'escape')
+                elif k in ('ref', 'rawptr'):
+                    bp = rv['place']
+                    if bp['p'] and bp['p'][0][0] == 'deref':
+                        if len(bp['p']) == 1 and not pl['p']:
+                            alias.setdefault(bp['l'], set()).add(pl['l'])
+                            mark(bp['l'], 'alias')
+                        elif any(e[0] == 'deref' for e in bp['p'][1:]):
+                            mark(bp['l'], 'deref')
+                        else:
+                            mark(bp['l'], 'other' if (rv.get('bk') == 'mut' or k == 'rawptr') else 'deref')
+                    elif bp['p']:
+                        mark(bp['l'], 'other')
+                elif k in ('discr', 'len', 'copy_for_deref'):
+                    bp = rv.get('place')
+                    if bp is not None:
+                        mark(bp['l'], 'deref' if bp['p'] and bp['p'][0][0] == 'deref' else 'other')
+                else:
+                    for key in ('op', 'a', 'b'):
+                        if key in rv:
+                            op_use(rv[key], 'escape')
+                    for o in rv.get('ops', []) or []:
+                        op_use(o, 'escape')
+            tm = b['term']
+            if tm['k'] == 'call':
+                op_use(tm.get('func'), 'escape')
+                for a in tm['args']:
+                    op_use(a, 'escape')
+                if not tm['dest']['p']:
+                    ndefs[tm['dest']['l']] = ndefs.get(tm['dest']['l'], 0) + 1
+                else:
+                    mark(tm['dest']['l'], 'other')
+            elif tm['k'] == 'switch':
+                op_use(tm['discr'], 'escape')
+            elif tm['k'] == 'assert':
+                op_use(tm['cond'], 'escape')
+            elif tm['k'] == 'drop':
+                pl = tm['place']
+                mark(pl['l'], 'deref' if pl['p'] and pl['p'][0][0] == 'deref' else 'dropped')
+        good = set()
+        OK = {'deref', 'alias'}
+
+        def fine(l, seen):
+            if l in seen:
+                return True
+            seen.add(l)
+            if l == 0 or l <= body.arg_count or ndefs.get(l, 0) != 1:
+                return False
+            if not (uses.get(l, set()) <= OK):
+                return False
+            return all(fine(a, seen) for a in alias.get(l, ()))
+        for l in list(ndefs):
+            if fine(l, set()):
+                good.add(l)
+        return good
+
     def _collect_defs(self):
+        transparent = self._transparent_borrow_locals()
         defs = {}   # local -> list of sites ; site = ('s', bb, idx, full) | ('c', bb)
         for bi, b in enumerate(self.body.blocks):
             for si, s in enumerate(b['stmts']):
@@ -70,6 +174,8 @@ class Terms:
                         if rv['k'] in ('ref', 'rawptr') and (rv.get('bk') == 'mut' or 'Mut' in str(rv.get('bk'))):
                             bp = rv['place']
                             if not any(e[0] == 'deref' for e in bp['p']) and bp['l'] != p['l']:
+                                if not p['p'] and p['l'] in transparent:
+                                    continue        # the borrow never escapes and never writes the borrowed local itself
                                 defs.setdefault(bp['l'], []).append(('b', bi, si, False))
             t = b['term']
             if t['k'] == 'call':
